@@ -178,64 +178,92 @@ func c07CompactOrder(e *Env) {
 
 func c07AppendOnly(e *Env) {
 	r := e.R
-	r.Rule("C07.append-only", "AGR+DCS", "existing files opened O_APPEND without O_TRUNC; Create only when absent; single open helper", 3)
-	ooc := e.Fn("internal/util", "OpenOrCreateFile")
-	if ooc == nil {
+	r.Rule("C07.append-only", "AGR+DCS (call-chain conditions)", "the history store opens existing files for writing only O_APPEND without O_TRUNC; truncating creation only when the file is absent", 1)
+	const oWronly, oRdwr, oAppend, oTrunc, oCreate, oExcl = 0x1, 0x2, 0x400, 0x200, 0x40, 0x80
+	sp := e.P.Pkg(jsondbRel)
+	if sp == nil {
+		r.Unknown("package "+jsondbRel, "-", "not found")
 		return
 	}
-	const oAppend, oTrunc, oCreate = 0x400, 0x200, 0x40
-	var check func(f *ssa.Function, lits []ir.NLit, depth int)
-	exists := func(lits []ir.NLit, pol bool) bool {
-		return HasVal(lits, func(v ssa.Value) bool { return calleeIs(v, "util.FileExists") }, pol)
+	absent := func(lits []ir.NLit) bool { // a dominating "file does not exist" test
+		return HasVal(lits, func(v ssa.Value) bool {
+			c, ok := ir.Resolve(v).(*ssa.Call)
+			if !ok {
+				return false
+			}
+			n := ir.CalleeName(&c.Call)
+			return strings.HasSuffix(n, ".FileExists") || strings.HasSuffix(n, ".exists") || strings.HasSuffix(n, ".fileExists")
+		}, false)
 	}
-	check = func(f *ssa.Function, outer []ir.NLit, depth int) {
-		for _, ci := range ir.CallsIn(f, func(c *ssa.CallCommon) bool { return true }) {
-			lits := append(append([]ir.NLit{}, outer...), e.DCS(ci)...)
-			switch ir.CalleeName(ci.Common()) {
-			case "os.OpenFile":
-				fl, ok := ir.ConstInt(ci.Common().Args[1])
-				if !ok {
-					r.Unknown(ShortFn(f)+": os.OpenFile flags", e.InstrPos(ci), "flags are not constant")
-					continue
-				}
-				okf := fl&oAppend != 0 && fl&oTrunc == 0
-				r.Check(okf, ShortFn(f)+": os.OpenFile with O_APPEND and without O_TRUNC", e.InstrPos(ci),
-					sprintf("an existing history/log file is opened with flags %#x: not append-only (a status update would overwrite or truncate recorded lines)", fl))
-			case "os.Create":
-				r.Check(exists(lits, false), ShortFn(f)+": os.Create only when the file does not exist", e.InstrPos(ci),
-					"os.Create (truncating) can be applied to an existing file", e.FactsStr("conditions: ", lits))
-			case "os.WriteFile":
-				r.Bad(ShortFn(f)+": os.WriteFile in the open helper", e.InstrPos(ci), "truncating write")
-			default:
-				if sc := ci.Common().StaticCallee(); sc != nil && e.P.Funcs[sc] && depth < 3 && sc.Pkg == f.Pkg {
-					check(sc, lits, depth+1)
+	type key struct {
+		f *ssa.Function
+	}
+	nApp := 0
+	reported := map[ssa.Instruction]bool{}
+	var walk func(f *ssa.Function, outer []ir.NLit, chain string, depth int, seen map[*ssa.Function]bool)
+	walk = func(f *ssa.Function, outer []ir.NLit, chain string, depth int, seen map[*ssa.Function]bool) {
+		if seen[f] || depth > 4 {
+			return
+		}
+		seen[f] = true
+		defer delete(seen, f)
+		for _, g := range ir.WithClosures(f) {
+			for _, ci := range ir.CallsIn(g, func(c *ssa.CallCommon) bool { return true }) {
+				lits := append(append([]ir.NLit{}, outer...), e.DCS(ci)...)
+				c := ci.Common()
+				switch ir.CalleeName(c) {
+				case "os.OpenFile":
+					if reported[ci] {
+						continue
+					}
+					fl, ok := ir.ConstInt(c.Args[1])
+					if !ok {
+						reported[ci] = true
+						r.Unknown(ShortFn(g)+": os.OpenFile flags", e.InstrPos(ci), "flags are not constant")
+						continue
+					}
+					if fl&(oWronly|oRdwr) == 0 {
+						continue // read-only
+					}
+					reported[ci] = true
+					okf := fl&oAppend != 0 && fl&oTrunc == 0
+					if !okf && (fl&oExcl != 0 && fl&oCreate != 0 || absent(lits)) && fl&oTrunc == 0 {
+						okf = true // a new file: nothing recorded can be overwritten
+					}
+					if fl&oAppend != 0 {
+						nApp++
+					}
+					r.Check(okf, ShortFn(g)+": os.OpenFile for writing is append-only (O_APPEND, no O_TRUNC) unless the file is new", e.InstrPos(ci),
+						sprintf("a history file that may already hold recorded lines is opened with flags %#x: a status update or a re-opened run overwrites recorded lines from offset 0 or truncates them", fl), "reached through "+chain, e.FactsStr("conditions: ", lits))
+				case "os.Create":
+					if reported[ci] {
+						continue
+					}
+					reported[ci] = true
+					r.Check(absent(lits), ShortFn(g)+": os.Create only when the file does not exist", e.InstrPos(ci),
+						"os.Create (truncating) can be applied to an existing history file", "reached through "+chain, e.FactsStr("conditions: ", lits))
+				case "os.WriteFile", "io/ioutil.WriteFile", "os.Truncate", "(*os.File).Truncate":
+					if reported[ci] {
+						continue
+					}
+					reported[ci] = true
+					r.Bad(ShortFn(g)+": "+shortCallee(c)+" on a history file", e.InstrPos(ci), "truncating write in the history store", "reached through "+chain)
+				default:
+					if sc := c.StaticCallee(); sc != nil && e.P.Funcs[sc] {
+						walk(sc, lits, chain+"→"+ShortFn(sc), depth+1, seen)
+					}
 				}
 			}
 		}
 	}
-	check(ooc, nil, 0)
-	// the history store opens files for writing only through writer.open → OpenOrCreateFile(w.target)
-	sp := e.P.Pkg(jsondbRel)
-	open := e.Fn(jsondbRel, "(*writer).open")
 	for _, f := range e.RepoFuncsSorted() {
-		if rootFn(f).Package() != sp {
+		if f.Parent() != nil || f.Package() != sp {
 			continue
 		}
-		for _, ci := range ir.CallsIn(f, func(c *ssa.CallCommon) bool {
-			return ir.IsCallTo(c, "os.OpenFile", "os.Create", "os.WriteFile", "os.Truncate", "(*os.File).Truncate")
-		}) {
-			r.Bad(ShortFn(f)+": opens a history file for writing outside the append-only helper", e.InstrPos(ci),
-				"the history store writes a file through "+shortCallee(ci.Common())+" instead of the append-only open helper")
-		}
+		walk(f, nil, ShortFn(f), 0, map[*ssa.Function]bool{})
 	}
-	if open != nil {
-		ok := false
-		for _, ci := range ir.CallsIn(open, func(c *ssa.CallCommon) bool { return c.StaticCallee() == ooc }) {
-			if e.IsFieldRead(ci.Common().Args[0], nil, "target") {
-				ok = true
-			}
-		}
-		r.Check(ok, "writer.open: util.OpenOrCreateFile(w.target)", e.Pos(open.Pos()), "the history writer does not open its target through the append-only helper")
+	if nApp == 0 {
+		r.Bad("history store: an append-mode open exists", "-", "no O_APPEND open is reachable from the history store: status lines cannot be appended to an existing run file")
 	}
 }
 
